@@ -19,7 +19,7 @@ Line skeletons (C13 oracle b, C39): {"lines": [...], "final_nl": bool} with line
     ["L", indent, [inline segments], None | [hws, body]]    text line, optional trailing comment
     ["S", indent, stmt]                                      whole-line statement
     ["C", indent, body]                                      whole-line comment
-    ["B", ws]                                                whitespace-only line (C39 only)
+    ["B", ws]                                                whitespace-only line (C39: anywhere; C13: not directly after an S line)
 translated by ``block_form`` / ``line_form`` into concrete skeletons.
 """
 import itertools
@@ -319,9 +319,26 @@ def line_skeletons(max_lines=7, foreign=False, blank=False, vt_indent=False):
     P = st.tuples(st.sampled_from(INDENTS), st.sampled_from(INDENTS), st.sampled_from(LINE_PAIRS), st.sampled_from([" ", "  ", ""]),
                   st.lists(st.one_of(L, S, C), max_size=3)).map(mk_pair)
     top = [L, L, S, C, P, P]
-    if blank:  # whitespace-only lines (not generated for the line-statement equivalence, see DESIGN C13)
-        top.append(st.sampled_from(BLANKS).map(lambda w: [["B", w]]))
-    lines = st.lists(st.one_of(top), min_size=1, max_size=max_lines).map(lambda items: [x for item in items for x in item])
+    if blank:
+        # whitespace-only lines.  blank=True: anywhere (C39, token stream only).  blank="before": anywhere except directly
+        # after a whole-line statement (the line-statement form consumes blank lines that FOLLOW it, DESIGN C13); blank
+        # lines BEFORE statements / comments are part of the documented equivalence.
+        B = st.sampled_from(BLANKS).map(lambda w: [["B", w]])
+        top += [B, B]
+        P = st.tuples(st.sampled_from(INDENTS), st.sampled_from(INDENTS), st.sampled_from(LINE_PAIRS), st.sampled_from([" ", "  ", ""]),
+                      st.lists(st.one_of(L, S, C, B), max_size=4)).map(mk_pair)
+        top += [P]
+
+    def flatten(items):
+        out = []
+        for item in items:
+            for x in item:
+                if blank == "before" and x[0] == "B" and out and out[-1][0] == "S":
+                    continue
+                out.append(x)
+        return out or [["L", "", [["text", "a"]], None]]
+
+    lines = st.lists(st.one_of(top), min_size=1, max_size=max_lines).map(flatten)
     return st.builds(lambda ls, nl: {"lines": ls, "final_nl": nl}, lines, st.booleans())
 
 
